@@ -364,7 +364,25 @@ type zzTwoIntsWide struct {
 // their fields differently; (b) a destination VALUE is reused: converting an empty (or shorter) list
 // into a holder that still contains the previous result leaves exactly the new contents.
 func C20Sequences() {
-	switch sym.Choose("sequence", 3) {
+	switch sym.Choose("sequence", 4) {
+	case 3:
+		// two successive replies of the same remote type decoded through DecodeFrom (what Proxy.Call2
+		// does at every call): the second result holds exactly the second reply's entries
+		typ, err := signature.Parse("{si}")
+		sym.Assert(err == nil, "decode-sequence/parse-ok")
+		if err != nil {
+			return
+		}
+		zzS := func(s string) []byte { return append(zzLE32(uint32(len(s))), []byte(s)...) }
+		x, y, z := sym.I32("x"), sym.I32("y"), sym.I32("z")
+		first := append(append(append(zzLE32(2), zzS("a")...), zzLE32(uint32(x))...), append(zzS("b"), zzLE32(uint32(y))...)...)
+		second := append(append(zzLE32(1), zzS("c")...), zzLE32(uint32(z))...)
+		var r1, r2 map[string]int64
+		sym.Assert(DecodeFrom(encoding.NewDecoder(nil, bytes.NewReader(first)), &r1, typ.Type()) == nil, "decode-sequence/first-ok")
+		sym.Assert(DecodeFrom(encoding.NewDecoder(nil, bytes.NewReader(second)), &r2, typ.Type()) == nil, "decode-sequence/second-ok")
+		sym.Assert(len(r1) == 2 && r1["a"] == int64(x) && r1["b"] == int64(y), "decode-sequence/first-result")
+		sym.Assert(len(r2) == 1, "decode-sequence/second-result-size")
+		sym.Assert(r2["c"] == int64(z), "decode-sequence/second-result-value")
 	case 0:
 		a := zzSrcStruct{Count: sym.I16("count1"), Name: sym.Str("name1", 1), Flags: []uint8{sym.U8("f1")}}
 		b := zzSrcReordered{Count: sym.I16("count2"), Name: sym.Str("name2", 1), Flags: []uint8{sym.U8("f2")}}
